@@ -260,15 +260,16 @@ class SerializationMethodVisitor(
                     fallback,
                 )
         else:
-            return UnionMethod(
-                tuple(
-                    DiscriminatedAlternative(
-                        expected_class(tp), self.visit(tp), discriminator.alias, key
-                    )
-                    for key, tp in discriminator.get_mapping(types).items()
-                ),
-                fallback,
-            )
+            alternatives = [
+                DiscriminatedAlternative(
+                    expected_class(tp),
+                    self.visit(tp),
+                    self.aliaser(discriminator.alias),
+                    key,
+                )
+                for key, tp in discriminator.get_mapping(types).items()
+            ]
+            return UnionMethod(tuple(alternatives), fallback)
 
     def annotated(self, tp: AnyType, annotations: Sequence[Any]) -> SerializationMethod:
         for annotation in reversed(annotations):
